@@ -163,6 +163,7 @@ def check_detection(spec: dict) -> dict:
     wrap = length if circular else None
     # protoclusters are built from the spans of genes (a gene sitting in another gene's intron is inside its span)
     genes = {gene["name"]: {"name": gene["name"], "loc": _gene_span(gene["loc"], length)} for gene in spec["genes"]}
+    originals = {gene["name"]: gene["loc"] for gene in spec["genes"]}
     raw, anchors = _run(spec, strip_superiors=True)
     any_superiors = any(rule["superiors"] for rule in spec["rules"])
     final = raw
@@ -290,12 +291,20 @@ def check_detection(spec: dict) -> dict:
                     if not any(other != gene and dist(gene, other) <= cutoff for other in inside_legit):
                         raise Violation("extender_overreach", {"rule": name, "core": proto["core"], "gene": gene,
                                                                "cutoff": cutoff})
-                if clean_layout:
+                # nothing within reach is left out: a gene satisfying the extender condition (or anchoring the rule) that
+                # is closer to the final core than the cutoff lies inside it, whatever it overlaps or is nested in
+                # (distance as the record measures it: to the nearest exon of the gene, not to its span)
+                if not wide:
                     for gene in legit:
-                        if ring.contains(proto["core"], genes[gene]["loc"]):
+                        exons = originals[gene]
+                        if ring.contains(proto["core"], genes[gene]["loc"]) or ring.contains(proto["core"], exons):
                             continue
-                        if ring.dist(proto["core"], genes[gene]["loc"], wrap) < cutoff:
+                        if ring.dist(proto["core"], exons, wrap) < cutoff:
+                            if not clean_layout:
+                                classes.append("extender_reach_judged_on_overlapping_genes")
                             raise Violation("extender_not_admitted", {"rule": name, "core": proto["core"], "gene": gene})
+                    if not clean_layout:
+                        classes.append("extender_reach_judged_on_overlapping_genes")
         # ---- neighbourhood
         for proto in mine:
             core_bases = ring.bases(proto["core"])
@@ -499,6 +508,77 @@ def hierarchy_specs(draw) -> dict:
 
 
 @st.composite
+def extender_overlap_specs(draw) -> dict:
+    """ EXTENDERS among overlapping and nested genes: an anchor gene, on one or both sides an extender gene at a gap
+        around the cutoff (or overlapping the anchor), possibly a second extender beyond it, and decoy genes without
+        hits that start with / end with / lie inside / lie around the extender genes or sit between them and the
+        anchor, so that the order in which genes are listed says little about which gene is nearest. On a ring the
+        whole layout is rotated to any offset, so any of these genes may cross the origin """
+    cutoff = draw(st.sampled_from([1, 4, 9]))
+    circular = draw(st.integers(0, 3)) > 0
+    genes: list = []       # (start, end) on an unbounded line, shifted later
+    hits: dict = {}
+
+    def add(start: int, end: int, profiles: list) -> None:
+        name = f"g{len(genes)}"
+        genes.append([name, start, end])
+        hits[name] = {p: 100 for p in profiles}
+
+    anchor_size = draw(st.sampled_from([3, 6, 12]))
+    add(0, anchor_size, ["a"])
+    for side in draw(st.sampled_from([[1], [-1], [1, -1]])):
+        edge = anchor_size if side == 1 else 0
+        for _level in range(draw(st.integers(1, 2))):
+            gap = draw(st.sampled_from([-1, 0, 0, cutoff - 1, cutoff, cutoff + 1]))
+            size = draw(st.sampled_from([3, 9, 30, 90]))
+            start, end = (edge + gap, edge + gap + size) if side == 1 else (edge - gap - size, edge - gap)
+            add(start, end, draw(st.sampled_from([["b"], ["b"], ["b", "d"], ["d"]])))
+            for _ in range(draw(st.integers(0, 2))):
+                kind = draw(st.sampled_from(["same_start", "same_end", "inside", "around", "between"]))
+                if kind == "same_start" and size > 3:
+                    add(start, start + draw(st.integers(3, size - 1)), [])
+                elif kind == "same_end" and size > 3:
+                    add(end - draw(st.integers(3, size - 1)), end, [])
+                elif kind == "inside" and size >= 9:
+                    low = draw(st.integers(1, size - 4))
+                    add(start + low, start + low + 3, [])
+                elif kind == "around":
+                    add(start - draw(st.integers(1, 6)), end + draw(st.integers(1, 6)), draw(st.sampled_from([[], ["d"]])))
+                elif kind == "between" and gap >= 4:
+                    low = min(edge, start, end) if side == -1 else edge
+                    inner = (end, edge) if side == -1 else (edge, start)
+                    if inner[1] - inner[0] >= 3:
+                        add(inner[0], inner[0] + 3, [])
+            edge = end if side == 1 else start
+    lowest = min(g[1] for g in genes)
+    highest = max(g[2] for g in genes)
+    span = highest - lowest
+    length = span + draw(st.sampled_from([cutoff + 2, 2 * cutoff + 5, span + 1, 3 * span]))
+    offset = draw(st.integers(0, length - 1)) if circular else draw(st.integers(0, length - span))
+    seen = set()
+    out_genes = []
+    for name, start, end in genes:
+        strand = draw(st.sampled_from([1, -1]))
+        begin = (start - lowest + offset) % length if circular else start - lowest + offset
+        size = end - start
+        if (begin, size) in seen:       # the record refuses two genes at one location
+            hits.pop(name)
+            continue
+        seen.add((begin, size))
+        if begin + size > length:
+            parts = [[begin, length], [0, begin + size - length]]
+            if strand == -1:
+                parts.reverse()
+            loc = {"parts": parts, "strand": strand, "kind": "span"}
+        else:
+            loc = {"parts": [[begin, begin + size]], "strand": strand, "kind": "simple"}
+        out_genes.append({"name": name, "loc": loc})
+    rules_spec = [{"name": "r0", "conditions": ["id", "a"], "superiors": [], "extenders": ["id", "b"], "cutoff": cutoff,
+                   "neighbourhood": draw(st.sampled_from([0, 2]))}]
+    return {"L": length, "circular": circular, "genes": out_genes, "hits": hits, "rules": rules_spec}
+
+
+@st.composite
 def extender_specs(draw) -> dict:
     """ focused on EXTENDERS: pairwise disjoint genes on a (mostly circular) record, an anchor group placed anywhere
         (often right after or across the origin) and chains of extender-satisfying genes on both sides whose gaps are
@@ -596,4 +676,5 @@ def run(ctx) -> None:
     ctx.hyp("detection", detection_specs(), max_examples=ctx.pick(2500, 40000), shards=ctx.pick(8, 16))
     ctx.hyp("detection", extender_specs(), max_examples=ctx.pick(1200, 15000), shards=ctx.pick(8, 16))
     ctx.hyp("detection", superior_specs(), max_examples=ctx.pick(1500, 20000), shards=ctx.pick(8, 16))
+    ctx.hyp("detection", extender_overlap_specs(), max_examples=ctx.pick(1500, 20000), shards=ctx.pick(8, 16))
     ctx.hyp("detection", hierarchy_specs(), max_examples=ctx.pick(1200, 15000), shards=ctx.pick(8, 16))
